@@ -31,6 +31,18 @@ CHECKS = {
          "Forward strings must be among the reference candidates (exact floor(1e6 x) digits, prefix property exact), letters and band per the certified latitude, round trips exact for prec <= 5; all 1 353 352 zone x letter combinations are judged for acceptance against geometry.",
          "Latitudes used for band classification are certified by an independent forward map (order-30 Krueger series / closed-form polar stereographic) with a 10 nm guard band. Lower-case input acceptance is not judged (header silent).",
          "DESIGN.md section 3/C05"),
+ "C16": ("rapidcheck + exhaustive enumeration", "property-based testing against exact rational arithmetic (boost cpp_rational) and 50-digit references after exact argument reduction; complete enumeration of all 2^32 floats for the one-argument functions (thorough tier; stratified in quick); stateful op sequences for Accumulator vs the exact rational sum",
+         "AngNormalize, AngDiff (exact identity d+e == y-x mod 360), sind/cosd/tand/sincosd/sincosde, atan2d/atand, LatFix/AngRound, eatanhe/taupf/tauf, Math::sum and Accumulator are compared with exact or 50-digit values; errors are measured in ulps of the result type including subnormal spacing.",
+         "Known finding C16-tauf-noconv (es > 0.99 or es < -3) is excluded by region for the tauf relations only. The float enumeration uses a long double reference cross-checked against the 50-digit one on 1 pattern in 257.",
+         "DESIGN.md section 3/C16"),
+ "C04": ("rapidcheck + exhaustive enumeration", "property-based testing against an independent zone table and an independent Gauss-Krueger / polar-stereographic reference; exhaustive enumeration of all zone strings up to length 4 and all EPSG codes in [32000,33000]; sentinel checks on throw",
+         "StandardZone, Forward, Reverse, acceptance rectangles (on, +-1 ulp, +-5 nm, +-1 km of every edge), Transfer, EncodeZone/DecodeZone, EPSG and the error contract are checked; 556 097 string/code cases are enumerated completely.",
+         "Inputs within 5 nm of a rectangle edge are classed 'edge' (no-crash only). Reference projection ref/tm.hpp (definitional continuation + order-30 Krueger series, mutually validated to 0.022 nm).",
+         "DESIGN.md section 3/C04"),
+ "C06": ("rapidcheck", "property-based testing against an independent reference Gauss-Krueger mapping: (a) analytic continuation of the meridian distance by complex quadrature and (b) the order-30 Krueger series from a frozen table, compared with each other on every case; analytic derivative for convergence and scale; bit-exact parities and wraps",
+         "Forward vs reference, Reverse/Forward round trips, series vs exact vs exact=true delegation, central meridian, gamma/k vs the analytic derivative, parities, longitude wrap, poles, far side, extendp, UTM singletons; tolerance = 2 x (documented 5 nm / 8 nm + computed truncation tail of the 6th-order series).",
+         "Known finding C06-exact-reverse-large-f (TransverseMercatorExact::Reverse for f > 0.05) is excluded for Reverse relations only. Where the 6th-order series has diverged (tail >= 1 m) nothing but no-crash is asserted.",
+         "DESIGN.md section 3/C06"),
  "C01": ("rapidcheck", "property-based testing against an independent long-double geodesic-ODE reference; differential across 8 solver/line configurations; metamorphic reversal",
          "Generated-input exploration: every generated direct problem is compared with a reference that integrates the geodesic equation itself (no series, no auxiliary sphere), to 2x the documented accuracy for the flattening. Exploration is the right level: the property quantifies over a continuum of inputs and an executable oracle exists.",
          "Trusts: the reference ODE integrator (self-checked per case by step halving, constraint projection), x87 long double, the tolerance formulas of DESIGN section 2 (2x documented accuracy, scaled by length in quarter circuits). Errors below the documented accuracy are not violations.",
